@@ -1,0 +1,23 @@
+//go:build verif
+
+package codegen
+
+// EncodeTableForVerif feeds rows (one per index, in index order) to the
+// row-compressing table used for the generated lexer and parser tables and
+// returns the flat array. Verification hook: compiled only with -tags verif.
+func EncodeTableForVerif(rows [][]int32) []int32 {
+	t := newTable[int32]()
+	for i, row := range rows {
+		t.AddRow(i, row)
+	}
+	return t.Array()
+}
+
+// EncodeSparseTableForVerif is EncodeTableForVerif for index sets with gaps.
+func EncodeSparseTableForVerif(indices []int, rows [][]int32) []int32 {
+	t := newTable[int32]()
+	for i, row := range rows {
+		t.AddRow(indices[i], row)
+	}
+	return t.Array()
+}
